@@ -26,6 +26,8 @@ func (r *InnerTokenRequest) Marshal() []byte {
 }
 
 func (r *InnerTokenRequest) Unmarshal(data []byte) bool {
+	// Forget the cached encoding of any value held before
+	r.raw = nil
 	s := cryptobyte.String(data)
 
 	if !s.ReadUint8(&r.tokenKeyId) || !s.ReadBytes(&r.blindedMsg, 256) {
